@@ -83,7 +83,9 @@ func c08Value(id, n int) []byte {
 	if n < 1 {
 		n = 1
 	}
-	return kvh.GenValue(uint64(id)*7919+13, n)
+	// the id is spelled out in front so that two puts never carry equal bytes (one- and
+	// two-byte pseudo-random values did collide, and a Get was then attributed to the wrong put)
+	return append([]byte{byte(id >> 16), byte(id >> 8), byte(id)}, kvh.GenValue(uint64(id)*7919+13, n)...)
 }
 
 func (r *c08Run) exec(client int, op c08Op) c08Event {
